@@ -993,18 +993,21 @@ def _rewrite(t):
         return ('unwrap_err', t[1][1])
     if t[0] == 'unwrap' and isinstance(t[1], tuple) and t[1] and t[1][0] == 'call' and t[1][1].endswith('::next') and len(t[1]) == 3:
         src = t[1][2]
+        ident = ()
         if src[0] == 'phi':
             srcs = [a for a in src[1:] if a[0] != 'loop']
+            lps = [a for a in src[1:] if a[0] == 'loop']
             if len(srcs) == 1 and len(src) == 3:
                 src = srcs[0]
+                ident = (('loopid', lps[0][1], lps[0][2]),)     # which loop's variable this is
         if src[0] == 'mut' and src[1] and src[1].endswith('::next'):
             src = src[3]
         if src[0] == 'agg' and src[1].endswith('Range::Range'):
             f = dict(src[2:])
-            return ('itervar', ('range', f.get('start'), f.get('end')))
+            return ('itervar', ('range', f.get('start'), f.get('end'))) + ident
         if src[0] == 'call' and src[1] == 'RangeInclusive::new' and len(src) == 4:
-            return ('itervar', ('rangeincl', src[2], src[3]))
-        return ('itervar', src)
+            return ('itervar', ('rangeincl', src[2], src[3])) + ident
+        return ('itervar', src) + ident
     if t[0] == 'veclit' and isinstance(t[1], tuple) and t[1] and t[1][0] == 'update':
         # Box<MaybeUninit<[T;N]>> written once with an array aggregate
         return ('veclit', t[1][3])
@@ -1080,4 +1083,8 @@ def show(d, depth=0, maxdepth=40):
         return f"(cast {d[1]} {show(d[2], depth+1)})"
     if h == 'repeat':
         return f"(repeat {show(d[1], depth+1)} {d[2]})"
+    if h == 'loopid':
+        return f"#{d[1]}@{d[2]}"
+    if h == 'itervar':
+        return '(itervar ' + show(d[1], depth + 1) + (' ' + show(d[2]) if len(d) > 2 else '') + ')' 
     return '(' + h + ''.join(' ' + (show(x, depth + 1) if isinstance(x, tuple) else str(x)) for x in d[1:]) + ')'
